@@ -288,6 +288,11 @@ def valid(case) -> bool:
                     return False
             if l.kind in ("macro", "callmacro", "stop", "restart", "pause", "hold"):
                 return False
+            if l.kind in ("simulate", "simoff") and l.node.get("tag") not in COND_TAGS:
+                return False
+            if l.kind == "simulate" and (isinstance(l.node.get("v"), bool) or not isinstance(l.node.get("v"), (int, float))
+                                         or l.node.get("unit") != TAG_UNIT[l.node["tag"]]):
+                return False
             t = l.node.get("t") if l.node else None
             if t is not None and not (isinstance(t, (int, float)) and 0 <= t <= 10):
                 return False
